@@ -136,18 +136,39 @@ class T(object):
         return 'T({}{})'.format(self.kind, ':' + self.ref if self.ref else '')
 
 
-NODEFAULT = object()
+class _NoDefault(object):
+    """Sentinel that survives copy/deepcopy/pickle as the same object."""
+
+    def __copy__(self):
+        return self
+
+    def __deepcopy__(self, memo):
+        return self
+
+    def __reduce__(self):
+        return (_get_nodefault, ())
+
+    def __repr__(self):
+        return 'NODEFAULT'
+
+
+def _get_nodefault():
+    return NODEFAULT
+
+
+NODEFAULT = _NoDefault()
 
 
 class Comp(object):
-    __slots__ = ('name', 't', 'optional', 'default', 'default_txt')
+    __slots__ = ('name', 't', 'optional', 'default', 'default_txt', 'cof')
 
-    def __init__(self, name, t, optional=False, default=NODEFAULT, default_txt=None):
+    def __init__(self, name, t, optional=False, default=NODEFAULT, default_txt=None, cof=None):
         self.name = name
         self.t = t
         self.optional = optional
         self.default = default
         self.default_txt = default_txt
+        self.cof = cof           # (type reference name, group id): component stems from COMPONENTS OF
 
     @property
     def has_default(self):
